@@ -16,11 +16,13 @@ enum E { X Y }
 input In2 { s: String!, t: Boolean }
 input In { p: Int = 3, q: [Int!], r: In2 = {s: "d"}, e: E = Y, n: In }
 input One @oneOf { i: Int, s: String }
+input Filter { min: Int!, tag: String }
 type Query {
   echo(i: Int, x: Int = 7, e: E, inp: In, l: [Int], f: Float, id: ID, b: Boolean): String
   req(r: Int!, rl: [Int!]!): String
   dfl(ll: [In!] = [{p: 1}], s: String = "dflt", nd: Int! = 5, one: One): String
   sum(values: [Int!] = [1, 2], o: In = {q: [1]}): String
+  many(filters: [Filter!], grid: [[Filter]]): String
   plain: Int
   sub: Query
 }
